@@ -46,6 +46,7 @@ func init() {
 			return
 		}
 		gst := run.Rule("GLOBAL-store", "no store to memory rooted at a package-level variable outside package initialisation (directly or through a written call argument)", 400).RequireControl(1)
+		shf := run.Rule("SHARED-fresh", "initialisers of shared precomputed types install freshly allocated tables and never write through a table pointer loaded from the object", 2)
 		shr := run.Rule("SHARED-readonly", "no function writes through a parameter of a shared precomputed type except that type's own initialisers", 60).RequireControl(1)
 		lacc := run.Rule("LOCK-access", "every access to a field of a mutex-containing struct holds the lock (or is in a constructor / a helper whose callers all hold it)", 8).RequireControl(1)
 		latm := run.Rule("LOCK-atomic", "every externally callable method of a mutex-containing struct takes the lock first and releases it by defer", 2).RequireControl(1)
@@ -100,6 +101,7 @@ func init() {
 				}
 				shr.Fail(p.Pos(u.Fn.Pos()), name, fmt.Sprintf("may write through its parameter #%d of shared type %s (only the type's own initialisers may)", u.Param, u.Type), nil)
 			}
+			checkSharedFresh(p, shf)
 			// locks
 			lst := emod.CheckLocks(p, m, lacc, latm, ldbl)
 			cst := emod.CheckNoConcurrencyPrimitives(p, conc, map[string]string{
